@@ -814,7 +814,7 @@ def fam_setattr(tier, rng):
                 cls_os, fld_os, [False, True], [None, True, False], bases, [False, True],
                 [None, True, False], [None, True, False], range(len(shapes))):
             core = (bs in core_bases and ad_ is None and sl is None and shape == 0 and fr is not False)
-            p = (0.6 if quick else 1.0) if core else (0.004 if quick else 0.16)
+            p = (0.6 if quick else 1.0) if core else (0.004 if quick else 0.08)
             if rng.random() > p:
                 continue
             kw = {}
@@ -1063,7 +1063,7 @@ def gen_specs(tier, seed):
     for name, fn in FAMILIES:
         for sp in fn(tier, random.Random(seed * 31 + len(name))):
             add(name, sp)
-    n_rand = 1800 if tier == "quick" else 30000
+    n_rand = 1800 if tier == "quick" else 24000
     for _ in range(n_rand):
         add("random", repair(random_spec(rng), rng))
     for sp in from_initgen(rng, 300 if tier == "quick" else 4000):
